@@ -96,6 +96,15 @@ type c18World struct {
 }
 
 var c18Dual bool // the two resources are two served versions of one resource (same group, same plural)
+var c18Cluster bool // the first resource is CLUSTER-SCOPED (its cache keys have no namespace part)
+
+// c18NS: the namespace objects of this kind live in
+func c18NS(k *sim.Kind) string {
+	if !k.Namespaced {
+		return ""
+	}
+	return "n1"
+}
 
 func newC18World(nsubs int, tworesources bool) *c18World {
 	vtime.Reset()
@@ -103,6 +112,9 @@ func newC18World(nsubs int, tworesources bool) *c18World {
 	x := &c18World{b: b, kinds: []*sim.Kind{kit.Leaf, kit.Other}}
 	if c18Dual {
 		x.kinds = []*sim.Kind{kit.Dual1, kit.Dual2}
+	}
+	if c18Cluster {
+		x.kinds = []*sim.Kind{kit.CWidget, kit.Other}
 	}
 	x.subs = make([]*c18Sub, nsubs)
 	x.res = make([]int, nsubs)
@@ -116,7 +128,7 @@ func newC18World(nsubs int, tworesources bool) *c18World {
 	// a sentinel object per resource exists from the start, so that every resync delivers at least one
 	// event: the harness can then wait for the (asynchronous) per-handler resync goroutine to have finished
 	for _, k := range x.kinds {
-		b.Sim.Seed(kit.Obj(k, "n1", "z"))
+		b.Sim.Seed(kit.Obj(k, c18NS(k), "z"))
 	}
 	return x
 }
@@ -158,7 +170,7 @@ func (x *c18World) ops() []string {
 		}
 	}
 	for r := 0; r < nres; r++ {
-		if x.b.Sim.Get(x.kinds[r], "n1", "x") == nil {
+		if x.b.Sim.Get(x.kinds[r], c18NS(x.kinds[r]), "x") == nil {
 			out = append(out, fmt.Sprintf("objAdd:%d", r))
 		} else {
 			out = append(out, fmt.Sprintf("objUpdate:%d", r), fmt.Sprintf("objDelete:%d", r))
@@ -215,7 +227,7 @@ func (x *c18World) apply(op string) {
 			x.lists[r]++
 			x.cacheObj[r] = map[string]string{}
 			for _, name := range []string{"x", "z"} {
-				if o := x.b.Sim.Get(k, "n1", name); o != nil {
+				if o := x.b.Sim.Get(k, c18NS(k), name); o != nil {
 					x.cacheObj[r][name] = kit.Str(o, "metadata", "resourceVersion")
 				}
 			}
@@ -308,15 +320,15 @@ func (x *c18World) apply(op string) {
 		old := x.cacheObj[r]["x"]
 		switch parts[0] {
 		case "objAdd":
-			x.b.Sim.Seed(kit.Obj(k, "n1", "x"))
+			x.b.Sim.Seed(kit.Obj(k, c18NS(k), "x"))
 		case "objUpdate":
-			x.b.Sim.Edit(k, "n1", "x", func(o map[string]interface{}) { kit.Field(o, fmt.Sprint(x.objRV), "spec", "v") })
+			x.b.Sim.Edit(k, c18NS(k), "x", func(o map[string]interface{}) { kit.Field(o, fmt.Sprint(x.objRV), "spec", "v") })
 		case "objDelete":
-			x.b.Sim.Remove(k, "n1", "x")
+			x.b.Sim.Remove(k, c18NS(k), "x")
 		}
 		if x.running[r] {
-			x.b.Deliver(k, "n1", "x", false)
-			o := x.b.Sim.Get(k, "n1", "x")
+			x.b.Deliver(k, c18NS(k), "x", false)
+			o := x.b.Sim.Get(k, c18NS(k), "x")
 			var ev string
 			switch parts[0] {
 			case "objAdd":
@@ -443,8 +455,9 @@ func TestVerifC18(t *testing.T) {
 		subs int
 		two  bool
 		dual bool
-	}{{2, false, false}, {3, true, false}, {2, true, true}} {
-		c18Dual = cfg.dual
+		clus bool
+	}{{2, false, false, false}, {3, true, false, false}, {2, true, true, false}, {2, false, false, true}} {
+		c18Dual, c18Cluster = cfg.dual, cfg.clus
 		ml := maxLen
 		if cfg.subs == 3 {
 			ml = maxLen - 1
@@ -465,7 +478,7 @@ func TestVerifC18(t *testing.T) {
 				}
 			}
 			idx++
-			if !r.Guard(kit.M{"subscribers": cfg.subs, "two-versions": cfg.dual, "ops": prefix}) {
+			if !r.Guard(kit.M{"subscribers": cfg.subs, "two-versions": cfg.dual, "cluster-scoped": cfg.clus, "ops": prefix}) {
 				return // this sequence aborted the process before: recorded, not expanded
 			}
 			// execute the prefix on a fresh world
@@ -478,7 +491,7 @@ func TestVerifC18(t *testing.T) {
 				r.Transitions += len(prefix)
 				r.Outcome(strings.Split(prefix[len(prefix)-1], ":")[0])
 				for _, f := range x.findings {
-					r.Violate(f.Key, f.Msg, kit.M{"subscribers": cfg.subs, "two-versions": cfg.dual, "ops": prefix})
+					r.Violate(f.Key, f.Msg, kit.M{"subscribers": cfg.subs, "two-versions": cfg.dual, "cluster-scoped": cfg.clus, "ops": prefix})
 				}
 				if idx%4001 == 0 {
 					r.Sample(kit.M{"subscribers": cfg.subs, "ops": prefix})
@@ -496,7 +509,7 @@ func TestVerifC18(t *testing.T) {
 		}
 		rec(nil)
 	}
-	c18Dual = false
+	c18Dual, c18Cluster = false, false
 	r.States = r.Evaluations
 }
 
